@@ -214,4 +214,126 @@ theorem lex_amount (C : Classes) (hC : ClassesOk C = true) {z : Z} (hc : z.col =
       List.length_append]
     exact fin _ _ _ _ (by simp) (by simp [Amount.print, Amount.signText, hneg])
 
+/-! ### lines, transactions, journals -/
+
+theorem letter_bytes : ∀ c : UInt8, (!isLetter c || (!indentByte c && !isBlank c)) = true :=
+  forall_uint8 _ (by decide +kernel)
+
+/-- **A posting line**: `'    ' account [ '  ' amount ] LF` lexes to Indent, Account, the amount's
+    tokens and Newline — exactly, whatever follows the line feed. -/
+theorem lex_posting_line (C : Classes) (hC : ClassesOk C = true) {z : Z} (hz : LS z) (p : Posting)
+    (hp : p.wf = true) {rest : Bytes} (ha : z.after = p.print ++ LF :: rest) :
+    lexS C z = p.toks z.line z.before.length ++ lexS C (jump z (p.print ++ [LF]) rest 1) := by
+  obtain ⟨⟨c0, t0, hacct, hc0⟩, hab, hcolon, hamt⟩ := Posting.wf_spec hp
+  have ha1 : z.after = [0x20, 0x20, 0x20, 0x20] ++ (p.acct ++ (p.amtText ++ LF :: rest)) := by
+    rw [ha]; simp [Posting.print]
+  have lb := letter_bytes c0
+  simp only [hc0, Bool.not_true, Bool.false_or, Bool.and_eq_true, Bool.not_eq_true'] at lb
+  -- the indent
+  have h1 := next_indent C hz.1 hz.2 ha1 (by simp) (by intro c hc; simp at hc; rw [hc]; decide)
+    (by rw [hacct]; exact Stops.cons _ lb.1)
+  have e1 : tokAt .indent [0x20, 0x20, 0x20, 0x20] z ([0x20, 0x20, 0x20, 0x20] : Bytes).length =
+      tokP .indent [0x20, 0x20, 0x20, 0x20] z.line z.before.length 0 := by
+    simp [tokAt, tokP, Z.position, hz.2, Nat.add_comm]
+  rw [lexS_step C h1 (by simp [tokAt]), e1]
+  -- the account
+  have hstopA : AcctStop (p.amtText ++ LF :: rest) := by
+    cases hamtv : p.amount with
+    | none =>
+      simp only [Posting.amtText, hamtv, List.nil_append]
+      exact Or.inr (Or.inl ⟨LF, rest, rfl, by decide, by decide⟩)
+    | some a =>
+      simp only [Posting.amtText, hamtv, List.cons_append]
+      exact Or.inr (Or.inr ⟨_, rfl⟩)
+  have h2 := next_cur C hz.2 (p := [0x20, 0x20, 0x20, 0x20]) (sp := []) (v := p.acct)
+    (rest := p.amtText ++ LF :: rest) (ty := .account) (by simp)
+    (by rw [hacct]; exact Stops.cons _ lb.2)
+    (fun Z hZ => scanInLineAt_account C hZ ⟨c0, t0, hacct, hc0⟩ hab hcolon hstopA)
+  simp only [List.nil_append, List.append_nil, List.length_nil, Nat.add_zero] at h2
+  rw [lexS_step C h2 (by simp [tokP])]
+  -- the amount and the line feed
+  cases hamtv : p.amount with
+  | none =>
+    have e : p.amtText = [] := by simp [Posting.amtText, hamtv]
+    have eb : [0x20, 0x20, 0x20, 0x20] ++ p.acct = p.print := by simp [Posting.print, e]
+    rw [e, List.nil_append, eb, lexS_step C (next_cur_lf C hz.2 p.print rest) (by simp [nlP])]
+    simp [Posting.toks, hamtv]
+  | some a =>
+    have e : p.amtText ++ LF :: rest = 0x20 :: 0x20 :: (a.print ++ LF :: rest) := by
+      simp [Posting.amtText, hamtv]
+    have eb : [0x20, 0x20, 0x20, 0x20] ++ p.acct ++ 0x20 :: 0x20 :: a.print = p.print := by
+      simp [Posting.print, Posting.amtText, hamtv]
+    rw [e, lex_amount C hC hz.2 (hamt a hamtv), eb,
+      lexS_step C (next_cur_lf C hz.2 p.print rest) (by simp [nlP])]
+    simp [Posting.toks, hamtv, Nat.add_assoc]
+    rw [show p.acct.length + 6 = 4 + (p.acct.length + 2) by omega]
+
+/-- **All postings of a transaction**, any number of them. -/
+theorem lex_postings (C : Classes) (hC : ClassesOk C = true) (ps : List Posting) :
+    ∀ {z : Z}, LS z → (∀ p ∈ ps, p.wf = true) → ∀ {rest : Bytes}, z.after = printPostings ps ++ rest →
+      lexS C z = postingsToks ps z.line z.before.length ++ lexS C (jump z (printPostings ps) rest ps.length) := by
+  induction ps with
+  | nil =>
+    intro z hz _ rest ha
+    simp only [printPostings, List.nil_append] at ha
+    simp only [postingsToks, printPostings, List.nil_append, List.length_nil]
+    rw [← ha, jump_zero z hz]
+  | cons p ps ih =>
+    intro z hz hwf rest ha
+    have ha' : z.after = p.print ++ LF :: (printPostings ps ++ rest) := by rw [ha]; simp [printPostings]
+    rw [lex_posting_line C hC hz p (hwf p (by simp)) ha',
+      ih (jump_ls _ _ _ _) (fun q hq => hwf q (by simp [hq])) (jump_after _ _ _ _), jump_jump]
+    simp only [postingsToks, jump_line, jump_off, printPostings, List.length_append, List.length_cons,
+      List.length_nil, List.append_assoc, List.cons_append, List.nil_append, List.singleton_append]
+    rw [show z.before.length + (p.print.length + (0 + 1)) = z.before.length + p.print.length + 1 by omega,
+      show 1 + ps.length = ps.length + 1 by omega]
+
+theorem Tx.wf_spec {t : Tx} (h : t.wf = true) :
+    t.date.wf = true ∧ t.words ≠ [] ∧ (∀ w ∈ t.words, word isLowerB w = true) ∧ ∀ p ∈ t.postings, p.wf = true := by
+  simp only [Tx.wf, Bool.and_eq_true, Bool.not_eq_true', List.isEmpty_eq_false_iff, List.all_eq_true] at h
+  exact ⟨h.1.1.1, h.1.1.2, h.1.2, h.2⟩
+
+/-- **A whole transaction**: header line and all posting lines. -/
+theorem lex_tx (C : Classes) (hC : ClassesOk C = true) {z : Z} (hz : LS z) (t : Tx) (ht : t.wf = true)
+    {rest : Bytes} (ha : z.after = t.print ++ rest) :
+    lexS C z = t.toks z.line z.before.length ++ lexS C (jump z t.print rest (1 + t.postings.length)) := by
+  obtain ⟨hd, hne, hws, hps⟩ := Tx.wf_spec ht
+  have ha' : z.after = t.header ++ LF :: (printPostings t.postings ++ rest) := by rw [ha]; simp [Tx.print]
+  rw [lex_header_line C hC hz t hd hne hws ha',
+    lex_postings C hC t.postings (jump_ls _ _ _ _) hps (jump_after _ _ _ _), jump_jump]
+  simp only [Tx.toks, jump_line, jump_off, List.length_append, List.length_cons, List.length_nil,
+    List.append_assoc, Tx.print, List.cons_append, List.nil_append]
+  rw [show z.before.length + (t.header.length + (0 + 1)) = z.before.length + t.header.length + 1 by omega]
+
+/-- **The token stream of a printed journal**, any number of transactions, from any line start. -/
+theorem lex_journal (C : Classes) (hC : ClassesOk C = true) (j : Journal) :
+    ∀ {z : Z}, LS z → WF j = true → z.after = print j → lexS C z = toksFrom j z.line z.before.length := by
+  induction j with
+  | nil =>
+    intro z hz _ ha
+    exact lexS_eof C ha hz.2
+  | cons t ts ih =>
+    intro z hz hwf ha
+    simp only [WF, List.all_cons, Bool.and_eq_true] at hwf
+    cases ts with
+    | nil =>
+      have ha' : z.after = t.print ++ [] := by simpa [print] using ha
+      rw [lex_tx C hC hz t hwf.1 ha', lexS_eof C (jump_after _ _ _ _) rfl]
+      simp only [toksFrom, jump_line, jump_off]
+      rw [show z.line + (1 + t.postings.length) = z.line + 1 + t.postings.length by omega]
+    | cons t2 ts =>
+      have ha' : z.after = t.print ++ LF :: print (t2 :: ts) := by simpa [print] using ha
+      rw [lex_tx C hC hz t hwf.1 ha', lex_blank_line C (jump_ls _ _ _ _) (jump_after _ _ _ _), jump_jump,
+        ih (jump_ls _ _ _ _) hwf.2 (jump_after _ _ _ _)]
+      simp only [toksFrom, jump_line, jump_off, List.length_append, List.length_cons, List.length_nil]
+      rw [show z.line + (1 + t.postings.length) = z.line + 1 + t.postings.length by omega,
+        show z.line + (1 + t.postings.length + 1) = z.line + t.postings.length + 2 by omega,
+        show z.before.length + (t.print.length + (0 + 1)) = z.before.length + t.print.length + 1 by omega]
+
+/-- **`lexAll (print j)`, exactly.** -/
+theorem lexAll_print (C : Classes) (hC : ClassesOk C = true) (j : Journal) (h : WF j = true) :
+    lexAll C (print j) = toksFrom j 1 0 := by
+  rw [lexAll_eq_lexS]
+  exact lex_journal C hC j (z := Z.init (print j)) ⟨rfl, rfl⟩ h rfl
+
 end HL.GCore
